@@ -110,6 +110,9 @@ def gen_spec(rng, depth=3, profile=None, inline_ok=True):
         # duck-typed renderables: an object that only has __rich__ (cast by the console wherever it meets one), or
         # only __rich_console__ (no measure method)
         spec = {"k": rng.choice(["richcast", "richcast", "nomeasure"]), "child": spec}
+    if profile.get("vcenter") and spec["k"] != "pbar" and rng.random() < 0.04:
+        # (only where the oracle looks at widths: VerticalCenter adds blank lines up to the console's height)
+        spec = {"k": "vcenter", "child": spec}
     solid = spec["k"] == "panel" or (spec["k"] == "text" and spec["s"].strip())
     if profile.get("controls", True) and solid and rng.random() < 0.05:
         # a renderable that emits a control code (bell, cursor visibility, window title) before its content:
@@ -390,6 +393,9 @@ def build(spec):
     if k == "styled":
         from rich.styled import Styled
         return Styled(build(spec["child"]), spec["style"])
+    if k == "vcenter":
+        from rich.align import VerticalCenter
+        return VerticalCenter(build(spec["child"]))
     if k == "group":
         from rich.console import RenderGroup
         return RenderGroup(*[build(c) for c in spec["children"]], fit=spec["fit"])
@@ -523,7 +529,7 @@ def all_strings(spec):
     elif k == "panel":
         yield (spec["title_text"]["s"] if spec.get("title_text") else spec["title"]) or ""
         yield from all_strings(spec["child"])
-    elif k in ("padding", "align", "constrain", "styled", "nomeasure", "richcast", "ctrl"):
+    elif k in ("padding", "align", "constrain", "styled", "vcenter", "nomeasure", "richcast", "ctrl"):
         yield from all_strings(spec["child"])
     elif k == "group":
         for c in spec["children"]:
@@ -551,7 +557,7 @@ def all_strings(spec):
 
 def depth(spec):
     k = spec["k"]
-    if k in ("panel", "padding", "align", "constrain", "styled", "nomeasure", "richcast", "ctrl"):
+    if k in ("panel", "padding", "align", "constrain", "styled", "vcenter", "nomeasure", "richcast", "ctrl"):
         return 1 + depth(spec["child"])
     if k == "group":
         return 1 + max([depth(c) for c in spec["children"]] or [0])
@@ -575,7 +581,7 @@ def kinds(spec, acc=None):
     acc = acc if acc is not None else set()
     acc.add(spec["k"])
     k = spec["k"]
-    if k in ("panel", "padding", "align", "constrain", "styled", "nomeasure", "richcast", "ctrl"):
+    if k in ("panel", "padding", "align", "constrain", "styled", "vcenter", "nomeasure", "richcast", "ctrl"):
         kinds(spec["child"], acc)
     elif k == "group":
         for c in spec["children"]:
@@ -612,7 +618,7 @@ def structural_min(spec, c=None):
     if k == "panel":
         _, r, _, l = unpack_pad(spec["padding"])
         return structural_min(spec["child"], c) + 2 + l + r      # (a title needs no room of its own: it is cut to fit)
-    if k in ("align", "constrain", "styled", "nomeasure", "richcast", "ctrl"):
+    if k in ("align", "constrain", "styled", "vcenter", "nomeasure", "richcast", "ctrl"):
         return structural_min(spec["child"], c)
     if k == "group":
         return max([structural_min(x, c) for x in spec["children"]] or [c])
